@@ -135,6 +135,9 @@ func (g *pgen) iterable(d int) Expr {
 		if g.t.Draw(4) == 0 {
 			g.use("iterable-with-instrumented-Symbol.iterator")
 			it.Wrap = true
+			if len(g.gvars) > 0 && g.t.Draw(2) == 0 {
+				it.Drv = &EDrive{Site: g.ns(), Gen: g.gvars[g.t.Draw(len(g.gvars))], Op: g.t.Draw(3), Arg: &ENum{N: 0}}
+			}
 		}
 		if g.t.Draw(4) == 0 {
 			// the iterator's result objects have accessors for 'done' and 'value': which consumer reads what, and when,
